@@ -165,6 +165,9 @@ func NewReceipt[O, X any](root ipld.Link, blocks blockstore.BlockReader, typ sch
 	if err != nil {
 		return nil, fmt.Errorf("decoding receipt: %s", err)
 	}
+	if rmdl.Ocm.Out.Ok == nil && rmdl.Ocm.Out.Err == nil {
+		return nil, fmt.Errorf("decoding receipt: result has neither ok nor error")
+	}
 
 	rcpt := receipt[O, X]{
 		rt:   rblock,
